@@ -165,6 +165,13 @@ func main() {
 		writeSites(sites, os.Getenv("VERIF_SNAPSHOT_SITES"), "Carapace.Props.C18", "expectedSites",
 			"/- The inventory of index / slice / panic / Must* sites (DESIGN.md appendix D) that C18's review, models and\n   child-process runs were made for.  Snapshot written by `VERIF_SNAPSHOT_SITES=<this file> extract`; compared with the\n   inventory regenerated from /repo on every run by `C18_sites_covered`. -/\n")
 	}
+	// ---- C10: inventory of the loops over maps
+	mr := extractMapRanges(repo)
+	writeSites(mr, filepath.Join(out, "MapRanges.lean"), "Carapace.Gen", "mapRanges", "-- GENERATED by /verif/extract from /repo on every run; do not edit.\n")
+	if os.Getenv("VERIF_SNAPSHOT_MAPRANGES") != "" {
+		writeSites(mr, os.Getenv("VERIF_SNAPSHOT_MAPRANGES"), "Carapace.Props.C10", "expectedMapRanges",
+			"/- The inventory of `for ... range <map>` statements of the library that the review in DESIGN.md 13.5 was made for (each entry:\n   file, function, ranged expression; digest of the whole loop).  Snapshot written by `VERIF_SNAPSHOT_MAPRANGES=<this file> extract`;\n   compared with the inventory regenerated from /repo on every run by `C10_map_ranges_covered`. -/\n")
+	}
 	js, _ := json.MarshalIndent(fc, "", " ")
 	os.MkdirAll("/verif/gen", 0o755)
 	genDir := filepath.Join(filepath.Dir(filepath.Dir(filepath.Dir(out))), "gen")
